@@ -23,7 +23,7 @@ ASSUME = [
 
 
 def decode_cases(raw, dst, n, seed):
-    """TLC writes each case as a JSON string holding JSON; write plain ndjson (optionally a seeded sample)."""
+    """TLC writes each case as a JSON string holding JSON; write plain ndjson (n > 0: a seeded sample of n cases)."""
     lines = []
     with open(raw) as f:
         for line in f:
@@ -91,7 +91,9 @@ def run(ctx):
     tier = "Quick" if q else "Full"
     raw = os.path.join(ctx.work, "cases_raw.ndjson")
     # ---- leg M: the design model (offset-level transcription of the decoders) satisfies Judge on every block of the scope
-    ctx.model_check(d, "MCMb2", "MCMb2" + tier, workers=1, env={"CASES": raw}, timeout=1500)
+    r = ctx.model_check(d, "MCMb2", "MCMb2" + tier, workers=1, env={"CASES": raw}, timeout=1500, coverage=not q)
+    if r.coverage_zero:
+        raise vlib.Broken("vacuous bound: actions never taken: %s" % r.coverage_zero)
     for b in (DESIGN_BUGS_QUICK if q else DESIGN_BUGS_FULL):
         ctx.expect_model_violation(d, "MCMb2", "MCMb2Bug_" + b, workers=1, env={"CASES": os.path.join(ctx.work, "unused.ndjson")}, timeout=300)
     # ---- legs G + T on the real package
@@ -101,7 +103,7 @@ def run(ctx):
     ctx.cov["legs"]["MCMb2" + tier]["cases_replayed"] = used
     tg, tt = os.path.join(ctx.work, "trace_g.ndjson"), os.path.join(ctx.work, "trace_t.ndjson")
     rc, out, _ = ctx.gotest(PKG[0], PKG[1], HARNESS, "TestVerifC10(Cases|Random)",
-                            env={"CASES": cases, "TRACE_G": tg, "TRACE_T": tt, "NTRACES": 250 if q else 6000}, timeout=900)
+                            env={"CASES": cases, "TRACE_G": tg, "TRACE_T": tt, "NTRACES": 250 if q else 20000}, timeout=900)
     if rc != 0 or not all(os.path.exists(p) for p in (tg, tt)):
         raise vlib.Broken("multiboot harness failed:\n" + out[-3000:])
     par = 6 if q else 12
@@ -112,9 +114,9 @@ def run(ctx):
         judge(ctx, p, leg, 1500, par)
     if skipped and not ctx.violations:
         raise vlib.Broken("harness skipped %d cases after repeated crashes but the monitor found no mismatch" % skipped)
-    ctx.cov["exhaustive"] = (not q) and not ctx.violations
-    ctx.cov["explanation"] = ("exhaustive = every block of the TLC small scope was decoded by the real package (thorough tier); "
-                              "the quick tier replays a seeded sample of them")
+    ctx.cov["exhaustive"] = not ctx.violations
+    ctx.cov["explanation"] = ("exhaustive = every block of the TLC small scope of this tier was decoded by the real package, with zero and 0xEE padding "
+                              "(quick: <= 3 tags, <= 2 map entries, command lines <= 3 chars, <= 2 sections; thorough: 4 / 3 / 5 / 3)")
 
 
 def replay(ctx, path):
